@@ -1,5 +1,6 @@
 import ParolModel.Model.ParLiterals
 import ParolModel.Proofs.ParLiterals
+import ParolModel.Proofs.ParLiteralsCtx
 /-! # C25 — Rendering a grammar as PAR text round-trips
 
 "For every grammar parol accepts, rendering it (before or after transformation) as PAR text and
@@ -101,6 +102,152 @@ theorem litOk_legacy_raw (k : LitKind) (hk : k ≠ .regex) (t : List Nat) : litO
     simp only [derivs] at h2
     rw [h2]; rfl
   simp [litOk, this]
+
+/-! ### Exactness of `litOk` -/
+
+theorem par_toks_nodup : (Generated.parTerms.map (·.tok)).Nodup := by decide
+
+theorem par_no_lookahead : ∀ u ∈ Generated.parTerms, u.la = none := by decide
+
+/-- `litOk` is exact: whenever the printed literal is read back as the one token of its kind
+    spanning the whole text, the body satisfies `litOk`. Together with
+    `literal_print_lex_roundtrip`: the printed literal round-trips through the PAR lexer IF AND ONLY
+    IF `litOk k t`. -/
+theorem literal_print_lex_exact (k : LitKind) (t : List Nat)
+    (h : tokenizeSpec parModes (printLit k t) = some [⟨k.tok, 0, t.length + 2, 0⟩]) : litOk k t = true := by
+  have hlen : (printLit k t).length = t.length + 2 := by simp [printLit]
+  have hstep := first_step_of_single parModes (printLit k t) _ (by simp [printLit]) rfl h
+  obtain ⟨m, pre, t', post, hm, hterms, htok, hlenspec, hpre⟩ :=
+    step_first parModes ⟨0, []⟩ (printLit k t) _ _ hstep
+  have hm' : m = ⟨Generated.parTerms, [], []⟩ := by
+    have : parModes[0]? = some ⟨Generated.parTerms, [], []⟩ := rfl
+    simp only at hm
+    rw [this] at hm; exact (Option.some.inj hm).symm
+  subst hm'
+  have hsplit : pre ++ t' :: post = Generated.parTerms.takeWhile (·.tok != k.tok) ++
+      (⟨k.re, k.tok, none⟩ : ScanTerm) :: (Generated.parTerms.dropWhile (·.tok != k.tok)).drop 1 := by
+    rw [← hterms]; exact terms_split k
+  obtain ⟨hp, ht'⟩ := split_unique _ _ _ _ _ _ hsplit htok (by
+    have : pre ++ t' :: post = Generated.parTerms := hterms.symm
+    rw [this]; exact par_toks_nodup)
+  obtain ⟨_, _, hmatch, _, _⟩ := matchLenSpec_some t' _ _ hlenspec
+  have hfull : matchesRe k.re (printLit k t) = true := by
+    rw [ht'] at hmatch
+    have : (printLit k t).take (t.length + 2) = printLit k t := by rw [← hlen]; exact List.take_length
+    simpa [this] using hmatch
+  simp only [litOk, Bool.and_eq_true]
+  constructor
+  · rw [splitLit_shape _ _ _ (lit_shape k)] at hfull
+    exact lit_matches_inv k.delim k.bodyRe t hfull
+  · simp only [notShadowed, List.all_eq_true, Bool.not_eq_true']
+    intro u hu
+    rw [← hp] at hu
+    cases hmu : matchesRe u.re (printLit k t) with
+    | false => rfl
+    | true =>
+      exfalso
+      have hmem : u ∈ Generated.parTerms := by
+        have hterms' : Generated.parTerms = pre ++ t' :: post := hterms
+        rw [hterms']; exact List.mem_append_left _ hu
+      have hfl := matchLen_full u (printLit k t) (par_no_lookahead u hmem) (by simp [printLit]) hmu
+      rw [ScanTerm.matchLen_eq_spec] at hfl
+      have := hpre u hu _ hfl
+      omega
+
+/-- the iff form -/
+theorem literal_print_lex_roundtrip_iff (k : LitKind) (t : List Nat) :
+    tokenizeSpec parModes (printLit k t) = some [⟨k.tok, 0, t.length + 2, 0⟩] ↔ litOk k t = true :=
+  ⟨literal_print_lex_exact k t, fun h => (literal_print_lex_roundtrip k t h).1⟩
+
+/-! ### In context: the literal is delimited by its own closing delimiter, whatever follows -/
+
+/-- the body regexes have the shape `(\\.|[^d])` with `d` the delimiter (and `d` is not `\`) -/
+theorem body_shape (k : LitKind) :
+    k.bodyRe = .alt (.cat (.cls ⟨[(92, 92)], false⟩) (.cls k.anyCls)) (.cls k.ndCls) ∧
+    k.ndCls.mem k.delim = false ∧ k.delim ≠ 92 := by
+  cases k <;> decide
+
+/-- every terminal declared before the literal's terminal is dead after the delimiter — except, for
+    `/…/`, the two comment terminals, which begin with `//` and `/*` -/
+theorem pre_dead (k : LitKind) :
+    ∀ u ∈ Generated.parTerms.takeWhile (·.tok != k.tok),
+      deriv u.re k.delim = .empty ∨
+      (k = .regex ∧ (u.re = reOfTok Generated.lineCommentTok ∨ u.re = reOfTok Generated.blockCommentTok)) := by
+  cases k <;> decide
+
+theorem comment_shapes :
+    (∃ X, reOfTok Generated.lineCommentTok = .cat (.cat (.cls ⟨[(47, 47)], false⟩) (.cls ⟨[(47, 47)], false⟩)) X) ∧
+    (∃ X, reOfTok Generated.blockCommentTok = .cat (.cat (.cls ⟨[(47, 47)], false⟩) (.cls ⟨[(42, 42)], false⟩)) X) :=
+  ⟨⟨_, rfl⟩, ⟨_, rfl⟩⟩
+
+/-- every terminal declared after the literal's terminal matches at most one character of a text
+    that starts with the delimiter -/
+theorem post_short (k : LitKind) :
+    ∀ u ∈ (Generated.parTerms.dropWhile (·.tok != k.tok)).drop 1,
+      deriv u.re k.delim = .empty ∨ deriv u.re k.delim = .eps := by
+  cases k <;> decide
+
+/-- "no premature delimiter, no overrun" in context: for every body `t` with `litOkCtx k t`
+    (`t ∈ L((\\.|[^d])*)`, `t` does not end in a backslash; for `/…/` moreover `t` is not empty and
+    does not start with `*`) and EVERY following text `rest`, the first token the PAR lexer reads
+    from `d t d rest` is the literal's token and it ends exactly at the closing delimiter. -/
+theorem literal_first_token (k : LitKind) (t rest : List Nat) (h : litOkCtx k t = true) :
+    stepMatch parModes ⟨0, []⟩ (printLit k t ++ rest) = some (t.length + 2, k.tok) := by
+  simp only [litOkCtx, Bool.and_eq_true, bne_iff_ne, ne_eq, Bool.or_eq_true] at h
+  obtain ⟨⟨hbody, hlast⟩, hrx⟩ := h
+  obtain ⟨hshape, hnd, hd92⟩ := body_shape k
+  have hw : printLit k t ++ rest = k.delim :: (t ++ k.delim :: rest) := by simp [printLit]
+  have hre : k.re = .cat (.cls ⟨[(k.delim, k.delim)], false⟩)
+      (.cat (.star (.alt (.cat (.cls ⟨[(92, 92)], false⟩) (.cls k.anyCls)) (.cls k.ndCls))) (.cls ⟨[(k.delim, k.delim)], false⟩)) := by
+    rw [← hshape]; exact splitLit_shape _ _ _ (lit_shape k)
+  have hbody' : matchesRe (.star (.alt (.cat (.cls ⟨[(92, 92)], false⟩) (.cls k.anyCls)) (.cls k.ndCls))) t = true := by
+    rw [← hshape]; exact hbody
+  rw [hw]
+  show bestOf (·.matchLen (k.delim :: (t ++ k.delim :: rest))) Generated.parTerms none = _
+  rw [terms_split k]
+  apply bestOf_full _ _ (⟨k.re, k.tok, none⟩ : ScanTerm) _
+    (matchLen_lit_ctx ⟨k.re, k.tok, none⟩ rfl k.delim k.anyCls k.ndCls hnd hd92 hre t rest hbody' hlast)
+  · intro u hu n hn
+    have := matchLen_le_one u k.delim _ (post_short k u hu) n hn
+    omega
+  · intro u hu n hn
+    exfalso
+    rcases pre_dead k u hu with hdead | ⟨hk, hcm⟩
+    · rw [matchLen_none_of_dead u k.delim _ hdead] at hn; cases hn
+    · subst hk
+      have hne : t ≠ [] ∧ t.head? ≠ some 42 := by
+        rcases hrx with hx | hx
+        · exact absurd rfl hx
+        · simpa using hx
+      obtain ⟨c, t', rfl⟩ : ∃ c t', t = c :: t' := by
+        cases t with
+        | nil => exact absurd rfl hne.1
+        | cons c t' => exact ⟨c, t', rfl⟩
+      have hc42 : c ≠ 42 := by simpa using hne.2
+      have hc47 : c ≠ 47 := by
+        have := star_body_head_ne 47 _ _ hnd hd92 c t' (by rw [← matchesRe_iff]; exact hbody')
+        exact this
+      have hnone : u.matchLen (47 :: (c :: t' ++ 47 :: rest)) = none := by
+        apply matchLen_none_of_no_prefix
+        intro n
+        rcases hcm with hcm | hcm
+        · obtain ⟨X, hX⟩ := comment_shapes.1
+          rw [hcm, hX]; exact no_prefix_two 47 47 c X hc47 _ n
+        · obtain ⟨X, hX⟩ := comment_shapes.2
+          rw [hcm, hX]; exact no_prefix_two 47 42 c X hc42 _ n
+      have : LitKind.regex.delim = 47 := rfl
+      rw [this] at hn
+      rw [hnone] at hn; cases hn
+  · exact Or.inl rfl
+
+/-- The condition "does not end in a backslash" is necessary: the token regexes let `\` match
+    `[^d]` as well, so after a body ending in a backslash the closing delimiter can be taken as
+    escaped and the token runs on to the next delimiter character (finding F25d): `"\" "` is ONE
+    String token of 5 characters although `"\"` alone is a String token with body `\`. -/
+theorem backslash_body_overruns :
+    litOk .legacy [92] = true ∧
+    stepMatch parModes ⟨0, []⟩ (printLit .legacy [92] ++ str " \"") = some (5, Generated.stringTok) := by
+  decide
 
 /-! ### The comparer -/
 
